@@ -168,6 +168,39 @@ def deferred_victim_is_the_selected_candidate(ctx):
     ctx.floor("serialized_candidate_sites", 1, "construction of SerializedKillCandidate")
 
 
+
+def can_run_is_the_pattern_loop(ctx):
+    """PrekillHook::canRunOnCgroup is the pattern match and nothing else: true iff some pattern matches, false only when none did."""
+    P = ctx.prog
+    # canRunOnCgroup: true iff some pattern matches
+    can = ctx.fn1("Oomd::Engine::PrekillHook::canRunOnCgroup")
+    fc = Flow(P, can, cg=ctx.cg)
+    for r in returns(can):
+        t = ret_text(can, r)
+        g = fc.guards(r)
+        m_any = re.match(r"^std::any_of\(this->cgroup_patterns_\.c?begin\(\), this->cgroup_patterns_\.c?end\(\), lambda@\d+\)$", t)
+        if m_any:
+            # the algorithm spelling of the same loop: true iff the predicate holds for some pattern
+            lam_ = [l for l in P.lambdas_in(can)]
+            okl = len(lam_) == 1 and len(lam_[0].params) == 1 and [ret_text(lam_[0], r_) for r_ in returns(lam_[0])] == [
+                "%s.cgroup().hasDescendantWithPrefixMatching(%s)" % (can.params[0]["name"], lam_[0].params[0]["name"])]
+            ctx.check(okl, "canRun:true-iff-pattern-matches", "return_table", can.loc(r), "true iff some pattern matches (std::any_of over the patterns)",
+                      "any_of predicate is not the pattern match")
+            continue
+        if t == "true":
+            ctx.check(has_fact(g, True, "hasDescendantWithPrefixMatching(pattern)"), "canRun:true-iff-pattern-matches", "return_table",
+                      can.loc(r), "true only on a matching pattern", "returns true without a pattern match")
+        else:
+            ctx.check(t == "false" and not has_fact(g, True, "hasDescendantWithPrefixMatching("), "canRun:false-otherwise", "return_table",
+                      can.loc(r), "false when no pattern matched", "returns %s" % t)
+            # ... and for no other reason: the only facts a 'false' may depend on are about the patterns (none matched / none left)
+            other = [(k, p_) for k, p_ in g if isinstance(k, str) and not re.search(r"hasDescendantWithPrefixMatching\(|cgroup_patterns_|\.end\(\)|\.size\(\)|\.empty\(\)|__begin\d*|__end\d*", k)]
+            ctx.check(not other, "canRun:false-only-when-no-pattern-matches@%d" % can.nodes[r].get("line", 0), "return_table", can.loc(r),
+                      "false depends on the patterns only", "PrekillHook::canRunOnCgroup returns false under %s, before/without trying the patterns: the hook match is no "
+                      "longer 'true exactly when the path equals the pattern, is an ancestor of a possible match or descends from a match' for the paths that take "
+                      "this exit (the root cgroup is an ancestor of every possible match)" % ", ".join("%s=%s" % (k, p_) for k, p_ in other[:3]))
+
+
 def run(ctx):
     deferred_victim_is_the_selected_candidate(ctx)
     from .C15 import cached_slot_types_agree
@@ -486,27 +519,7 @@ def run(ctx):
     # the match itself (component-wise; '*' is one whole component): same rule as C16
     from .C16 import pattern_match_rule
     pattern_match_rule(ctx)
-    # canRunOnCgroup: true iff some pattern matches
-    can = ctx.fn1("Oomd::Engine::PrekillHook::canRunOnCgroup")
-    fc = Flow(P, can, cg=ctx.cg)
-    for r in returns(can):
-        t = ret_text(can, r)
-        g = fc.guards(r)
-        m_any = re.match(r"^std::any_of\(this->cgroup_patterns_\.c?begin\(\), this->cgroup_patterns_\.c?end\(\), lambda@\d+\)$", t)
-        if m_any:
-            # the algorithm spelling of the same loop: true iff the predicate holds for some pattern
-            lam_ = [l for l in P.lambdas_in(can)]
-            okl = len(lam_) == 1 and len(lam_[0].params) == 1 and [ret_text(lam_[0], r_) for r_ in returns(lam_[0])] == [
-                "%s.cgroup().hasDescendantWithPrefixMatching(%s)" % (can.params[0]["name"], lam_[0].params[0]["name"])]
-            ctx.check(okl, "canRun:true-iff-pattern-matches", "return_table", can.loc(r), "true iff some pattern matches (std::any_of over the patterns)",
-                      "any_of predicate is not the pattern match")
-            continue
-        if t == "true":
-            ctx.check(has_fact(g, True, "hasDescendantWithPrefixMatching(pattern)"), "canRun:true-iff-pattern-matches", "return_table",
-                      can.loc(r), "true only on a matching pattern", "returns true without a pattern match")
-        else:
-            ctx.check(t == "false" and not has_fact(g, True, "hasDescendantWithPrefixMatching("), "canRun:false-otherwise", "return_table",
-                      can.loc(r), "false when no pattern matched", "returns %s" % t)
+    can_run_is_the_pattern_loop(ctx)
     # the deadline is part of the action context saved at ASYNC_PAUSED: it must be the
     # saved one that is in place when the waiting kill plugin is resumed (window counted
     # from when the chain fired, not from the resume tick)
